@@ -87,6 +87,8 @@ AGG_LISTS = {
     "pc_cc": ["postal_code", "county_classification", "unit"],
     "all": ["postal_code", "county_fips", "county_classification", "unit"],
     "cf_pc": ["county_fips", "postal_code", "unit"],
+    # the classification table is computed before the other tables
+    "cc_pc_cf": ["county_classification", "postal_code", "county_fips", "unit"],
 }
 AGG_LISTS_H = {
     "pc": ["postal_code", "unit"],
